@@ -657,10 +657,10 @@ func ruleM4b(c *Ctx) {
 		fi := c.fi(fn)
 		// the value cached, and the appends that build it (through phis or a local cell)
 		var cached ssa.Value
-		allInstrs(fn, func(in ssa.Instruction) {
+		walkHelpers(fn, 2, func(_ *ssa.Function, in ssa.Instruction, _ ssa.Instruction) {
 			if mu, ok := in.(*ssa.MapUpdate); ok {
 				if f := fieldOfLoad(mu.Map); f != nil && cacheFields[f] {
-					cached = mu.Value
+					cached = resolveParam(mu.Value)
 				}
 			}
 		})
